@@ -426,56 +426,76 @@ def r5_definitely_assigned(ctx, F):
               "InstrMov (unchecked read) is emitted only on the Some edge of try_definitely_assigned",
               "write_load_local emits the unchecked InstrMov for a local that is not known to be assigned", fn=wl)
     # conditionally evaluated operands never mark
-    ma = F.find(r"eval::bc::compiler::expr::<impl eval::compiler::expr::ExprCompiled>::mark_definitely_assigned_after$|"
-                r"ExprCompiled::mark_definitely_assigned_after$|<impl eval::compiler::expr::ExprCompiled>::mark_definitely_assigned_after$")
-    if len(ma) != 1:
-        ctx.bad("C02.R5", "mark_definitely_assigned_after:anchor",
-                "anchor-missing: ExprCompiled::mark_definitely_assigned_after (%d found)" % len(ma))
-        return
-    f = ma[0]
-    m = match_arms(F, f, EXPR)
-    if not m:
-        ctx.bad("C02.R5", "mark_definitely_assigned_after:match", "anchor-missing: match on ExprCompiled", fn=f)
-        return
-    bb, arms, other, allv = m
-    for v, allowed_elems in (("If", {"0"}), ("LogicalBinOp", {"0"})):
+    def arm_marks(f, arms, other, v):
         t = arms.get(v)
         if t is None:
-            ctx.bad("C02.R5", "mark:%s:arm" % v, "anchor-missing: no arm for %s" % v, fn=f)
-            continue
+            return None, None
         stop = {x for k_, x in arms.items() if x != t} | ({other} if other != t else set())
         reach = f.reach([t], cut_blocks=stop)
         recs = [c for c in f.calls if c.bb in reach and re.search(r"mark_definitely_assigned_after$", c.name)]
         elems = set()
         for c in recs:
-            for o in [c.args[0]]:
-                # which tuple element of the boxed payload flows into the recursive call
-                seen = set()
-                work = locals_in(o)
-                while work:
-                    l = work.pop()
-                    if l in seen:
-                        continue
-                    seen.add(l)
-                    for st in f.stmts:
-                        if st.lhs_local == l:
-                            for mm in re.finditer(r"\.#(\d+)|\.\{[^}]*::(\d+)\}", st.text()):
-                                pass
-                            mt = re.findall(r"\.#(\d+)", st.text())
+            seen = set()
+            work = locals_in(c.args[0])
+            while work:
+                l = work.pop()
+                if l in seen:
+                    continue
+                seen.add(l)
+                for st in f.stmts:
+                    if st.lhs_local == l:
+                        mt = re.findall(r"\.#(\d+)", st.text())
+                        if mt:
+                            elems.add(mt[-1])
+                        work += locals_in(st.text())
+                for c2 in f.calls:
+                    if c2.dest_local == l:
+                        for a in c2.args:
+                            mt = re.findall(r"\.#(\d+)", a)
                             if mt:
                                 elems.add(mt[-1])
-                            work += locals_in(st.text())
-                    for c2 in f.calls:
-                        if c2.dest_local == l:
-                            for a in c2.args:
-                                mt = re.findall(r"\.#(\d+)", a)
-                                if mt:
-                                    elems.add(mt[-1])
-                                work += locals_in(a)
-        ctx.check(bool(recs) and elems <= allowed_elems and bool(elems), "C02.R5", "mark:%s" % v,
-                  "only the unconditionally evaluated operand (element %s) is marked" % sorted(allowed_elems),
-                  "mark_definitely_assigned_after descends into a conditionally evaluated operand of %s (elements %s): "
-                  "an assignment that may not happen is treated as definite" % (v, sorted(elems)), fn=f)
+                            work += locals_in(a)
+        return recs, elems
+
+    specs = [
+        (r"<impl eval::compiler::expr::ExprCompiled>::mark_definitely_assigned_after$", EXPR,
+         [("If", 1, {"0"}), ("LogicalBinOp", 1, {"0"})]),
+        (r"<impl eval::compiler::stmt::StmtCompiled>::mark_definitely_assigned_after$",
+         r"eval::compiler::stmt::StmtCompiled$", [("If", 1, {"0"}), ("For", 1, {"1"}), ("Return", 0, set())]),
+    ]
+    for fpat, typat, arms_spec in specs:
+        ma = F.find(fpat)
+        if len(ma) != 1:
+            ctx.bad("C02.R5", "mark_definitely_assigned_after:anchor:" + typat.split("::")[-1].rstrip("$"),
+                    "anchor-missing: %s (%d found)" % (fpat, len(ma)))
+            continue
+        f = ma[0]
+        m = match_arms(F, f, typat)
+        if not m:
+            ctx.bad("C02.R5", "mark_definitely_assigned_after:match:" + f.qpath[-40:], "anchor-missing: match", fn=f)
+            continue
+        bb, arms, other, allv = m
+        tyn = typat.split("::")[-1].rstrip("$")
+        for v, maxcalls, allowed in arms_spec:
+            recs, elems = arm_marks(f, arms, other, v)
+            if recs is None:
+                ctx.bad("C02.R5", "mark:%s::%s:arm" % (tyn, v), "anchor-missing: no arm for %s" % v, fn=f)
+                continue
+            ctx.check(len(recs) == maxcalls and elems <= allowed, "C02.R5", "mark:%s::%s" % (tyn, v),
+                      "only the unconditionally evaluated operand (element %s) is marked" % (sorted(allowed) or "none"),
+                      "mark_definitely_assigned_after of %s::%s marks %d operand(s) (elements %s), expected %d (%s): an "
+                      "assignment inside a conditionally executed part is treated as definite, and later reads "
+                      "compile to the unchecked InstrMov" % (tyn, v, len(recs), sorted(elems), maxcalls,
+                                                             sorted(allowed)), fn=f)
+    cm = F.find(r"<impl eval::compiler::compr::ComprCompiled>::mark_definitely_assigned_after$")
+    if len(cm) == 1:
+        recs = [c for c in cm[0].calls if re.search(r"mark_definitely_assigned_after$", c.name) and c.bb not in cm[0].cleanup]
+        sl = calls_by_name(cm[0], r"ClausesCompiled::split_last$")
+        ctx.check(len(recs) == 1 and bool(sl), "C02.R5", "mark:ComprCompiled",
+                  "a comprehension marks only the iterable of its outermost clause",
+                  "ComprCompiled::mark_definitely_assigned_after marks more than the first clause's iterable", fn=cm[0])
+    else:
+        ctx.bad("C02.R5", "mark:ComprCompiled:anchor", "anchor-missing: ComprCompiled::mark_definitely_assigned_after")
 
 
 def r5d_param_count(ctx, F):
